@@ -118,6 +118,130 @@ where
     }
 }
 
+/// A stream that implements only the required trait methods (the exact forms are the crate's
+/// provided default implementations).
+struct Minimal(Vec<u8>, usize);
+
+impl vm_memory::ReadVolatile for Minimal {
+    fn read_volatile<B: BitmapSlice>(&mut self, buf: &mut VolatileSlice<B>) -> Result<usize, vm_memory::VolatileMemoryError> {
+        let n = buf.len().min(self.0.len() - self.1);
+        if n > 0 {
+            buf.write(&self.0[self.1..self.1 + n], 0)?;
+        }
+        self.1 += n;
+        Ok(n)
+    }
+}
+
+impl vm_memory::WriteVolatile for Minimal {
+    fn write_volatile<B: BitmapSlice>(&mut self, buf: &VolatileSlice<B>) -> Result<usize, vm_memory::VolatileMemoryError> {
+        let mut tmp = vec![0u8; buf.len()];
+        if !tmp.is_empty() {
+            buf.read(&mut tmp, 0)?;
+        }
+        self.0.extend_from_slice(&tmp);
+        Ok(tmp.len())
+    }
+}
+
+/// Stream forms with count 0 over descriptor-backed and minimal streams (default exact methods).
+fn stream_forms_fd<A: Copy + std::fmt::Debug, B: Bytes<A>>(k: &K, layer: &str, b: &B, addrs: &[(A, &str)], snapshot: &dyn Fn() -> Vec<u8>)
+where
+    B::E: std::fmt::Debug,
+{
+    use std::io::{Seek, SeekFrom, Write};
+    for (a, class) in addrs {
+        for kind in ["File", "UnixStream", "minimal-stream"] {
+            let args = format!("addr {:?} count 0 stream {}", a, kind);
+            let mk_file = || {
+                let mut f = crate::layouts::tempfile().unwrap();
+                f.write_all(&[1, 2, 3, 4]).unwrap();
+                f.seek(SeekFrom::Start(0)).unwrap();
+                f
+            };
+            k.form(layer, &format!("read_volatile_from(count 0, {})", kind), class, args.clone(), snapshot, &mut || match kind {
+                "File" => {
+                    let mut f = mk_file();
+                    let r = want_ok(b.read_volatile_from(*a, &mut f, 0), |n| *n == 0);
+                    if f.stream_position().unwrap() != 0 {
+                        return Err("bytes were consumed from the file".into());
+                    }
+                    r
+                }
+                "UnixStream" => {
+                    let (mut w, mut r) = std::os::unix::net::UnixStream::pair().unwrap();
+                    w.write_all(&[1, 2, 3]).unwrap();
+                    want_ok(b.read_volatile_from(*a, &mut r, 0), |n| *n == 0)
+                }
+                _ => {
+                    let mut s = Minimal(vec![1, 2, 3], 0);
+                    let r = want_ok(b.read_volatile_from(*a, &mut s, 0), |n| *n == 0);
+                    if s.1 != 0 {
+                        return Err("bytes were consumed from the stream".into());
+                    }
+                    r
+                }
+            });
+            k.form(layer, &format!("read_exact_volatile_from(count 0, {})", kind), class, args.clone(), snapshot, &mut || match kind {
+                "File" => {
+                    let mut f = mk_file();
+                    let r = want_ok(b.read_exact_volatile_from(*a, &mut f, 0), |_| true);
+                    if f.stream_position().unwrap() != 0 {
+                        return Err("bytes were consumed from the file".into());
+                    }
+                    r
+                }
+                "UnixStream" => {
+                    // an empty, still open socket: a read would block, so only a non-blocking probe
+                    let (_w, mut r) = std::os::unix::net::UnixStream::pair().unwrap();
+                    r.set_nonblocking(true).unwrap();
+                    want_ok(b.read_exact_volatile_from(*a, &mut r, 0), |_| true)
+                }
+                _ => {
+                    let mut s = Minimal(vec![], 0);
+                    want_ok(b.read_exact_volatile_from(*a, &mut s, 0), |_| true)
+                }
+            });
+            k.form(layer, &format!("write_volatile_to(count 0, {})", kind), class, args.clone(), snapshot, &mut || match kind {
+                "File" => {
+                    let mut f = crate::layouts::tempfile().unwrap();
+                    let r = want_ok(b.write_volatile_to(*a, &mut f, 0), |n| *n == 0);
+                    if f.metadata().unwrap().len() != 0 {
+                        return Err("bytes were written to the file".into());
+                    }
+                    r
+                }
+                "UnixStream" => {
+                    let (mut w, _r) = std::os::unix::net::UnixStream::pair().unwrap();
+                    want_ok(b.write_volatile_to(*a, &mut w, 0), |n| *n == 0)
+                }
+                _ => {
+                    let mut s = Minimal(vec![], 0);
+                    let r = want_ok(b.write_volatile_to(*a, &mut s, 0), |n| *n == 0);
+                    if !s.0.is_empty() {
+                        return Err("bytes were handed to the sink".into());
+                    }
+                    r
+                }
+            });
+            k.form(layer, &format!("write_all_volatile_to(count 0, {})", kind), class, args.clone(), snapshot, &mut || match kind {
+                "File" => {
+                    let mut f = crate::layouts::tempfile().unwrap();
+                    want_ok(b.write_all_volatile_to(*a, &mut f, 0), |_| true)
+                }
+                "UnixStream" => {
+                    let (mut w, _r) = std::os::unix::net::UnixStream::pair().unwrap();
+                    want_ok(b.write_all_volatile_to(*a, &mut w, 0), |_| true)
+                }
+                _ => {
+                    let mut s = Minimal(vec![], 0);
+                    want_ok(b.write_all_volatile_to(*a, &mut s, 0), |_| true)
+                }
+            });
+        }
+    }
+}
+
 /// Copies of zero-sized elements / with empty buffers through a volatile slice.
 fn copy_forms<S: BitmapSlice>(k: &K, layer: &str, vs: &VolatileSlice<S>, snapshot: &dyn Fn() -> Vec<u8>) {
     let len = vs.len();
@@ -221,6 +345,7 @@ fn slice_layer(k: &K) {
         if len > 0 {
             let valid: Vec<(usize, &str)> = vec![(0, "mapped"), (3, "mapped"), (len - 1, "last-byte")];
             stream_forms(k, layer, &vs, &valid, &snap);
+            stream_forms_fd(k, layer, &vs, &valid, &snap);
         }
         copy_forms(k, layer, &vs, &snap);
     }
@@ -237,6 +362,7 @@ where
     bytes_forms(k, &layer, m, &all, snapshot);
     let valid: Vec<(GuestAddress, &str)> = mapped.iter().map(|a| (GuestAddress(*a), "mapped")).collect();
     stream_forms(k, &layer, m, &valid, snapshot);
+    stream_forms_fd(k, &layer, m, &valid, snapshot);
     // region level
     for (i, reg) in m.iter().enumerate() {
         let layer = format!("region({})", tag);
@@ -255,6 +381,7 @@ where
             valid.push((MemoryRegionAddress(4096), "mapped-page-aligned"));
         }
         stream_forms(k, &layer, reg, &valid, snapshot);
+        stream_forms_fd(k, &layer, reg, &valid, snapshot);
         let _ = i;
         // slices handed out by the region
         if let Ok(vs) = reg.as_volatile_slice() {
